@@ -352,7 +352,8 @@ def classify_rx(trace, matched, status, meta):
         skip += 1
     while ep > 0 and trace[ep]["dir"]:
         ep -= 1
-    trig = [x for x in trig if x[0] >= ep]
+    # ... or within the observation window (MaxLat) before the failing cycle
+    trig = [x for x in trig if x[0] >= min(ep, matched - 6)]
     pattern = trig[0][1] if trig else "no_known_trigger"
     group = "rx_stream" if status.startswith("rx_") else "status_flags"
     if pattern == "rxcmd_during_register_operation":
